@@ -6,6 +6,8 @@ TRACE_CFG = ['SPECIFICATION TraceSpec', 'CONSTRAINT Progress', 'POSTCONDITION Tr
 
 
 def sig_of(e):
+    if e['ev'] == 'decomp':
+        return "rns:decomp:nq=%d:np=%d:alpha=%s:digit=%s" % (len(e.get('qs', [])), len(e.get('ps', [])), e.get('alpha'), e.get('digit'))
     return "rns:%s:%s" % (e['ev'], e.get('kind', e.get('dir', ('round' if e.get('rounded') else 'floor') + ('-ntt' if e.get('ntt') else ''))))
 
 
